@@ -161,6 +161,11 @@ class NamespaceFunction(Namespace[symtable.Function]):
 
             for outer in reversed(stack):
                 if isinstance(outer, NamespaceClass):
+                    if nonlocal_free == "__class__":
+                        # a function nested in a method that mentions `super`:
+                        # the implicit cell of the nearest enclosing class
+                        self.zero_arg_super_used = True
+                        break
                     continue
                 assert isinstance(outer, NamespaceFunction)
 
